@@ -249,11 +249,15 @@ func (f *faultHandler) GAT(c common.GATRequest) (common.GetResponse, error) {
 }
 func (f *faultHandler) Get(c common.GetRequest) (<-chan common.GetResponse, <-chan error) {
 	if err := f.plan.hit(f.name); err != nil {
+		// the channel discipline of the real handlers: both unbuffered, the error is handed over
+		// first, then the response channel and the error channel are closed
 		rc := make(chan common.GetResponse)
-		ec := make(chan error, 1)
-		ec <- err
-		close(rc)
-		close(ec)
+		ec := make(chan error)
+		go func() {
+			ec <- err
+			close(rc)
+			close(ec)
+		}()
 		return rc, ec
 	}
 	return f.inner.Get(c)
@@ -261,10 +265,12 @@ func (f *faultHandler) Get(c common.GetRequest) (<-chan common.GetResponse, <-ch
 func (f *faultHandler) GetE(c common.GetRequest) (<-chan common.GetEResponse, <-chan error) {
 	if err := f.plan.hit(f.name); err != nil {
 		rc := make(chan common.GetEResponse)
-		ec := make(chan error, 1)
-		ec <- err
-		close(rc)
-		close(ec)
+		ec := make(chan error)
+		go func() {
+			ec <- err
+			close(rc)
+			close(ec)
+		}()
 		return rc, ec
 	}
 	return f.inner.GetE(c)
